@@ -2073,7 +2073,10 @@ class SourceCatalog:
         if self.isscalar:
             localbkg = localbkg[0]
         source_sum = np.array([np.sum(arr) for arr in self._data_values])
-        source_sum -= self.area.value * localbkg
+        # number of unmasked pixels in *this* image (``area`` may come
+        # from the detection catalog)
+        npix = np.array([arr.size for arr in self._data_values])
+        source_sum -= npix * localbkg
         if self._data_unit is not None:
             source_sum <<= self._data_unit
         return source_sum
